@@ -53,6 +53,9 @@ func funlock(db *DB) error {
 
 // mmap memory maps a DB's data file.
 func mmap(db *DB, sz int) error {
+	if err := verifIO(db, "mmap", int64(sz)); err != nil {
+		return err
+	}
 	// Map the data file to memory.
 	b, err := unix.Mmap(int(db.file.Fd()), 0, sz, syscall.PROT_READ, syscall.MAP_SHARED|db.MmapFlags)
 	if err != nil {
